@@ -1,22 +1,11 @@
 (* RendezvousProofs.v — proofs about Model/Rendezvous.v (C11: fronting, limits, AMP = POST). *)
 From Coq Require Import List NArith ZArith Lia Bool Arith String.
 From Coq Require Import ZifyN ZifyNat ZifyBool.
-From Snow Require Import Lib.Wire Model.B64Url Model.AmpPath Model.CacheURL Model.Rendezvous.
+From Snow Require Import Lib.Wire Lib.AmpPathUtil Model.B64Url Model.AmpPath Model.CacheURL Model.Rendezvous.
 From Snow Require Import Proofs.AmpPathProofs.
 Import ListNotations.
 Open Scope N_scope.
 Notation length := List.length.
-
-Lemma beq_refl : forall a, beq a a = true.
-Proof. induction a; cbn; [reflexivity|]. rewrite N.eqb_refl. assumption. Qed.
-Lemma beq_eq : forall a b, beq a b = true <-> a = b.
-Proof.
-  induction a as [|x a IH]; destruct b as [|y b]; cbn; split; try discriminate; auto.
-  - intros H. apply andb_true_iff in H. destruct H as [H1 H2]. apply N.eqb_eq in H1. apply IH in H2. congruence.
-  - intros H. inversion H; subst. rewrite N.eqb_refl. apply beq_refl.
-Qed.
-Lemma beq_nil_false : forall a, a <> [] -> beq a [] = false.
-Proof. destruct a; [congruence|reflexivity]. Qed.
 
 (* ---------- the bounded read ---------- *)
 
